@@ -246,12 +246,19 @@ impl Substream {
         substream: SubstreamType,
         codec: ProtocolCodec,
     ) -> Self {
+        // The identity codec reads the payload directly into `read_buffer` so the buffer must be
+        // able to hold an entire payload.
+        let read_buffer = match codec {
+            ProtocolCodec::Identity(payload_size) => BytesMut::zeroed(payload_size),
+            ProtocolCodec::UnsignedVarint(_) | ProtocolCodec::Unspecified => BytesMut::zeroed(1024),
+        };
+
         Self {
             peer,
             substream,
             codec,
             substream_id,
-            read_buffer: BytesMut::zeroed(1024),
+            read_buffer,
             offset: 0usize,
             pending_frames: VecDeque::new(),
             current_frame_size: None,
